@@ -6,6 +6,11 @@ import CnlModel.ScaledWrapped
     C02w ebin div|mod <radix> <DL> <NL> <eL> <DR> <NR> <eR> <l> <r> => sc(el(D,N),e,radix)/<storage>:<v>
     C02w eident <radix> <DL> <NL> <eL> <DR> <NR> <eR> <l> <r>       => 0|1      ((a/b)*b + a%b == a)
     C02w equot  2       <DL> <NL> <eL> <DR> <NR> <eR> <l> <r>       => sc(el(D,N),e,2)/<storage>:<v>
+    C02w ebs r|l s|p div|mod <radix> <DL> <NL> <eL> <T> <eT> <l> <b> => sc(el(D,N),e,radix)/<storage>:<v>
+    C02w ebident r|l s|p <radix> <DL> <NL> <eL> <T> <eT> <l> <b>     => 0|1
+    C02w ebquot r|l s|p 2 <DL> <NL> <eL> <T> <eT> <l> <b>            => sc(el(D,N),e,2)/<storage>:<v>
+         (an elastic_integer representation against a built-in one: `s` a scaled_integer<T, power<eT>>, `p` a plain T
+          (eT = 0); `r` elastic OP built-in, `l` built-in OP elastic; <l> is always the elastic representation)
     C02w obin div|mod <tag> <radix> <L> <eL> <R> <eR> <l> <r>       => sc(ov(T,tag),e,radix):<v> | TRAP+ | THROW+ | UB
     C02w oident <tag> <radix> <L> <eL> <R> <eR> <l> <r>             => 0|1
     C02w oquot  <tag> 2 <L> <eL> <R> <eR> <l> <r>                   => sc(ov(D,tag),e,2):<v>
@@ -62,6 +67,39 @@ def EArgs.full (a : EArgs) : String :=
   let f (z : ESNum) : Bool := !z.narrowest.signed && (repTy z.digits z.narrowest).any (fun t => t.bits == z.digits)
     && decide (z.value ≥ 2^(z.digits - 1))
   if f a.x || f a.y then "/full-width-top-bit" else ""
+
+/-- an elastic_integer representation against a built-in one (`ebs`, `ebident`, `ebquot`) -/
+structure BArgs where
+  left : Bool      -- the built-in operand is the left one
+  plain : Bool     -- a plain integer rather than a scaled_integer over it
+  radix : Nat
+  x : ESNum
+  T : IntTy
+  eT : Int
+  b : Int
+
+def parseBArgs (side kind : String) (toks : List String) : Option BArgs :=
+  match toks with
+  | [rx, dl, nl, el, t, er, l, b] => do
+    let rx ← rx.toNat?; let dl ← dl.toNat?; let nl ← parseIntTy nl; let el ← el.toInt?
+    let T ← parseIntTy t; let er ← er.toInt?; let l ← l.toInt?; let b ← b.toInt?
+    if (side != "r" && side != "l") || (kind != "s" && kind != "p") || (kind == "p" && er != 0) then none
+    some ⟨side == "l", kind == "p", rx, ⟨dl, nl, el, l⟩, T, er, b⟩
+  | _ => none
+
+/-- dividend and divisor: representation values and exponents -/
+def BArgs.num (a : BArgs) : Int := if a.left then a.b else a.x.value
+def BArgs.den (a : BArgs) : Int := if a.left then a.x.value else a.b
+def BArgs.eN (a : BArgs) : Int := if a.left then a.eT else a.x.exp
+def BArgs.eD (a : BArgs) : Int := if a.left then a.x.exp else a.eT
+/-- the elastic operand within its declared digits, the built-in one a value of its type other than the lowest of a
+signed type (`lowest / -1`), the divisor not zero -/
+def BArgs.guard (a : BArgs) : Bool :=
+  decide a.x.InRange && a.T.inRange a.b && !(a.T.signed && a.b == a.T.lowest) && a.den != 0
+def BArgs.label (a : BArgs) : String :=
+  (if a.left then "l" else "r") ++ (if a.plain then "/plain" else "/scaled") ++ "/" ++
+  (if a.x.narrowest.signed then "s" else "u") ++ (if a.T.signed then "s" else "u") ++
+  (if a.b < 0 then "/neg-builtin" else "") ++ (if a.x.value < 0 then "/neg-elastic" else "")
 
 structure OArgs where
   tag : OvTag
@@ -140,6 +178,31 @@ def checkC02w (toks : List String) (res : String) : Option Verdict :=
       | none => some false
     some { model := showRes (showESNumR 2) (ScaledWrapped.quotientE a.x a.y), spec := spec,
            branch := "equot/" ++ a.mix ++ a.full, nontrivial := a.guard }
+  | "ebs" :: side :: kind :: ops :: rest => do
+    let op ← parseBinOp ops; let a ← parseBArgs side kind rest
+    if op != .div && op != .mod then none
+    let (wantE, wantV) : Int × Int :=
+      if op == .div then (a.eN - a.eD, a.num.tdiv a.den) else (a.eN, a.num.tmod a.den)
+    let spec : Option Bool := if !a.guard then none else
+      match parseEsResR res with
+      | some (d, sg, e, rx, v) => some (e == wantE && v == wantV && rx == a.radix && withinDigits2 d sg v)
+      | none => some false
+    some { model := showRes (showESNumR a.radix) (ScaledWrapped.binOpB op a.left a.x a.T a.eT a.b), spec := spec,
+           branch := "ebs/" ++ ops ++ "/" ++ a.label, nontrivial := a.guard }
+  | "ebident" :: side :: kind :: rest => do
+    let a ← parseBArgs side kind rest
+    some { model := showRes showBool (ScaledWrapped.identB a.left a.x a.T a.eT a.b), spec := if a.guard then some (res == "1") else none,
+           branch := "ebident/" ++ a.label, nontrivial := a.guard }
+  | "ebquot" :: side :: kind :: rest => do
+    let a ← parseBArgs side kind rest
+    let k : Nat := if a.left then a.x.digits else a.T.digits
+    let wantV := (a.num * 2^k).tdiv a.den
+    let spec : Option Bool := if !a.guard then none else
+      match parseEsResR res with
+      | some (d, sg, e, rx, v) => some (e == a.eN - a.eD - k && v == wantV && rx == 2 && withinDigits2 d sg v)
+      | none => some false
+    some { model := showRes (showESNumR 2) (ScaledWrapped.quotientB a.left a.x a.T a.eT a.b), spec := spec,
+           branch := "ebquot/" ++ a.label, nontrivial := a.guard }
   | "obin" :: ops :: rest => do
     let op ← parseBinOp ops; let a ← parseOArgs rest
     if op != .div && op != .mod then none
